@@ -13,6 +13,7 @@
 import AHP.Lemmas.Format
 import AHP.Lemmas.FormatLexPrettyLayout
 import AHP.Lemmas.FormatLexPrettyMulti
+import AHP.Lemmas.FormatLexMiniText
 namespace AHP.C12
 open AHP AHP.Fmt
 -- the lexer's side (namespace `AHP`) has declarations with the same short names as the formatter model
@@ -180,6 +181,46 @@ theorem squeeze_idempotent (s : Str) : squeeze (squeeze s) = squeeze s := squeez
     re-tokenisation of the output (see `…_partial` below). -/
 theorem reformat_tree_fixed_point (cfg : Cfg) (c : Ctx) (p : Str) (t : Node) :
     decorate cfg c p (decorate cfg c p t) = decorate cfg c p t := decorate_idem cfg c p t
+
+/-! #### C12b at text level — the mini clause read off the OUTPUT text -/
+
+/-- **C12b on the output text.**  Mini class (normal or slim elements); any token sequence whose plain-parser tree is a
+    strict document, single- or multi-root (`WrapperOK`), **adjacent data blocks allowed (no `Glued`)**.  The output text
+    lexes (`lexStrict`) to the doctype declaration followed by `glueDt (dtText dt) body`: `body` are the tokens of the
+    document's blocks, and the line break `getHTML` writes after the doctype line is a data token of its own or glued in
+    front of `body`'s leading data token (it is not text of the document).  Then, with the stack of open elements
+    recomputed from the tokens alone (`tagStack`) and `miniCare st` = "no pre/code element open and the innermost open
+    element is not script/style":
+
+    * every data or reference token `t` of `body` at a position where `miniCare` holds is a `GoodText`: it neither
+      begins nor ends with CR/LF and contains no tab — a data token of the output is several squeezed pieces glued;
+    * every **text run** of `body` (`textRuns`: maximal sequence of consecutive data and reference tokens, rendered and
+      glued) at such a position is a `GoodText`.
+
+    The known finding `C12-mini-dropped-markup` does not limit this clause (it concerns `mini² = mini`): two pieces that
+    touch because markup between them was dropped are each squeezed, and a concatenation of good texts is good.  What
+    limits it is the strict sub-language (the hypotheses `Strict`, `DtOK`); outside it: tree level
+    (`squeezed_has_no_tab`, `squeezed_has_no_outer_line_break` per piece) + the oracle `mini_text_violation`. -/
+theorem mini_output_text_runs (cfg : Cfg) (hm : cfg.mini = true) (hi : IndentWS cfg) (toks : List Tok)
+    (h : NoWrapperStart toks) (ps : St) (hp : Plain.feed toks = .ok ps)
+    (n : Str) (st : AStore) (sc : Bool) (kids : List FNode)
+    (hroot : ps.root = some (FNode.elem n st sc kids).toNode) (hw : WrapperOK n st sc kids)
+    (hs : (FNode.elem n st sc kids).Strict) (hdt : DtOK ps.doctype) :
+    ∃ out body, format cfg toks = .ok out ∧
+      lexStrict out = some (dtToks ps.doctype ++ glueDt (dtText ps.doctype) body) ∧
+      (∀ pre t post, body = pre ++ t :: post → isRunTok t = true → miniCare (tagStack [] pre) = true →
+        GoodText (renderTok t)) ∧
+      (∀ p ∈ textRuns body, miniCare p.1 = true → GoodText p.2) := by
+  obtain ⟨out, body, h1, h2, h3⟩ := mini_text_core cfg hm hi toks h ps hp n st sc kids hroot hw hs hdt
+  refine ⟨out, body, h1, h2, ?_, ?_⟩
+  · intro pre t post e hr hc
+    exact dscan_split pre [] t post (e ▸ h3) hr hc
+  · exact dscan_runs body [] [] h3 (fun _ => goodText_nil)
+
+/-- `GoodText`, spelled out -/
+theorem goodText_iff (s : Str) :
+    GoodText s ↔ (∀ c, s.head? = some c → isCRLF c = false) ∧ (∀ c, s.getLast? = some c → isCRLF c = false)
+      ∧ ∀ c ∈ s, c ≠ '\t' := Iff.rfl
 
 /-! #### C12d — stability from the second pass on -/
 
@@ -642,6 +683,29 @@ example : ∃ out toks2, format (mkCfg .mini .dflt false) (strictToksM (some (st
   mini_output_fixed_point_text_multi _ rfl (by decide) _ (by decide) _ multiKids_strict
     (by simp only [multiKids, FNode.Glued, GluedL, FNoAdjL, fisDataTok]; decide)
     (by simp only [multiKids, FNoAdjL, fisDataTok]; decide) multiKids_noWrapper multiKids_multi
+
+/-- `mini_output_text_runs` applies to `stableTree` (adjacent data blocks `a`, ` b\n`; a `pre`; a `script`), slim-mini
+    class, with a doctype -/
+example : ∃ out body, format (mkCfg .slimMini .dflt true) (strictToks (some (str "DOCTYPE html")) stableTree) = .ok out ∧
+    lexStrict out = some (dtToks (some (str "DOCTYPE html")) ++ glueDt (str "\n") body) ∧
+    (∀ p ∈ textRuns body, miniCare p.1 = true → GoodText p.2) :=
+  let ⟨out, body, h1, h2, _, h4⟩ := mini_output_text_runs (mkCfg .slimMini .dflt true) rfl (by decide) _
+    (noWrapperStart_strictToks _ _ stableTree_strict stableTree_noWrapper) _
+    (plain_feed_strictToks (some (str "DOCTYPE html")) (by decide) _ _ _ _ stableTree_strict) _ _ _ _ rfl (by decide)
+    stableTree_strict (by decide)
+  ⟨out, body, h1, h2, h4⟩
+
+/-- the text and its runs: `a` and ` b\n` were squeezed separately and touch; the run inside `pre` keeps its blanks and
+    the `script` content its text (`miniCare` false there) -/
+example : okIs (format (mkCfg .mini .dflt false) (strictToks (some (str "DOCTYPE html")) stableTree))
+    "<!DOCTYPE html>\n<div >a b<p >x<br /></p><pre ><span >  y  </span></pre>&amp;<script >if (a < b) { s = 1; }</script></div>"
+    = true := by decide +kernel
+example : (textRuns [Token.start (str "div") [], .data (str "a b"), .start (str "p") [], .data (str "x"),
+      .startend (str "br") [], .end_ (str "p"), .start (str "pre") [], .start (str "span") [], .data (str "  y  "),
+      .end_ (str "span"), .end_ (str "pre"), .entity (str "amp"), .start (str "script") [],
+      .data (str "if (a < b) { s = 1; }"), .end_ (str "script"), .end_ (str "div")]).map (fun p => (miniCare p.1, p.2))
+    = [(true, str "a b"), (true, str "x"), (false, str "  y  "), (true, str "&amp;"),
+       (false, str "if (a < b) { s = 1; }")] := by decide +kernel
 
 /-- the texts in question: pass 1, and pass 2 = pass 3 (what the model's formatter and lexer compute) -/
 example : okIs (format (mkCfg .pretty .dflt false) (strictToks (some (str "DOCTYPE html")) stableTree))
